@@ -277,3 +277,66 @@ def ob_three_tasks(st: int, typed: int, k0: int, k1: int, k2: int, t0: int, t1: 
     ds = [cint(d0, 0, 2), cint(d1, 0, 2), cint(d2, 0, 2)]
     with untraced():
         return run_concurrently(st, typed == 1, kinds, ts, ds)
+
+
+# ---------------------------------------------------------------------------------------------------------------
+# a task STARTED from inside an edit_state block is an ordinary task afterwards
+def _spawn_scenario(st: int, da: int, tc: int, kc: int, tb: int, db: int) -> bool:
+    """task A (instant 0) opens an edit_state block, starts task C from inside it (ensure_future: C gets a copy of A's context), adds 10 to
+    y and leaves the block after da; C sleeps tc and then writes x (kc 0: set('x', 100); 1: an edit_state block x += 1 without suspension);
+    task B at tb opens an edit_state block, reads x, is suspended for db, writes x = read + 1."""
+    with SqliteEnv() as env:
+        if st == ST_MEM:
+            store: Any = InMemoryStateStore(DictState(x=0, y=0))
+        else:
+            store = env.store(None)
+            drive(store.set_state(DictState(x=0, y=0)))
+        children: List[Any] = []
+
+        async def task_c() -> None:
+            await asyncio.sleep(tc)
+            if kc == 0:
+                await store.set("x", 100)
+            else:
+                async with store.edit_state() as s:
+                    s["x"] = s.get("x", 0) + 1
+
+        async def task_a() -> None:
+            async with store.edit_state() as s:
+                y = s.get("y", 0)
+                children.append(asyncio.ensure_future(task_c()))
+                await asyncio.sleep(da)
+                s["y"] = y + 10
+
+        async def task_b() -> None:
+            await asyncio.sleep(tb)
+            async with store.edit_state() as s:
+                x = s.get("x", 0)
+                await asyncio.sleep(db)
+                s["x"] = x + 1
+
+        async def main() -> Any:
+            await asyncio.gather(asyncio.ensure_future(task_a()), asyncio.ensure_future(task_b()))
+            await asyncio.gather(*children)
+            return await store.get_state()
+
+        final = to_plain(MiniLoop().run_until_complete(main()))
+    want_x = [101, 100] if kc == 0 else [2]          # set: C then B / B then C ; edit: both increments
+    return final.get("y") == 10 and final.get("x") in want_x
+
+
+@obligation(quick=150, thorough=400, partitions_quick=[f"st == {s} and kc == {k}" for s in (0, 1) for k in (0, 1)],
+            partitions_thorough=[f"st == {s} and kc == {k} and tb == {t}" for s in (0, 1) for k in (0, 1) for t in (0, 1, 2)],
+            what="a task STARTED from inside an edit_state block (it inherits a copy of the block's context) and living on after the block: its "
+                 "later write (set, or an edit_state block of its own) excludes another task's suspended edit_state block like any other "
+                 "writer's — the final state is that of a serial order of the three operations, on both stores",
+            bounds={"stores": 2, "block A": "duration 0..1", "child's write": "set / edit_state, 0..3 after it was started",
+                    "block B": "start 0..2, suspended 0..2"})
+def ob_task_started_inside_a_block(st: int, da: int, tc: int, kc: int, tb: int, db: int) -> bool:
+    """
+    pre: 0 <= st <= 1 and 0 <= da <= 1 and 0 <= tc <= 3 and 0 <= kc <= 1 and 0 <= tb <= 2 and 0 <= db <= 2
+    post: _
+    """
+    st, da, tc, kc, tb, db = cint(st, 0, 1), cint(da, 0, 1), cint(tc, 0, 3), cint(kc, 0, 1), cint(tb, 0, 2), cint(db, 0, 2)
+    with untraced():
+        return _spawn_scenario(st, da, tc, kc, tb, db)
